@@ -14,7 +14,8 @@
  *   TRIGSET t active max_clicks relay_connected     after a TRIG event
  *   CFGMODE t               supla_esp_cfgmode_start reached (case ends)
  *   FINAL t last cc step relay
- * outputs for the monitor only:  WAT t channel action / WVAL t channel v  (frames on the wire), REGD t r */
+ * outputs for the monitor only:  WAT t channel action / WVAL t channel v  (frames on the wire), REGD t r,
+ *   EDGE t level (true time of every level change), BUSYAT t dt, RESTART t */
 #include "drvmain.h"
 #include "devsim.h"
 
@@ -77,7 +78,7 @@ static void run_case(int n, char **lines) {
            boot, C11_RELAY_PIN, C11_IN_PIN, type, flags, relay ? C11_RELAY_PIN : 255, channel, atcap,
            level0 ? (1u << C11_IN_PIN) : 0u);
   ds_apply_cfg(cfg);
-  ds_log_gpio = 0; ds_log_wire = 0; ds_log_conn = 0; ds_log_restart = 1;
+  ds_log_gpio = 0; ds_log_wire = 0; ds_log_conn = 0; ds_log_restart = 1; ds_stop_on_restart = 0;  /* a watchdog restart (boot counter wrap, C19) is not this property's business: logged, ignored */
   ds_on_frame = c11_frame;
   ds_boot(1);
   v_on_gpio_write = c11_gpio_hook;
@@ -86,8 +87,12 @@ static void run_case(int n, char **lines) {
   for (; i < n; i++) {
     char *l = lines[i];
     if (!strncmp(l, "ADV ", 4)) v_advance(strtoull(l + 4, NULL, 0));
-    else if (!strncmp(l, "BUSY ", 5)) ets_delay_us((uint32_t)strtoull(l + 5, NULL, 0));
-    else if (!strncmp(l, "IN ", 3)) v_set_input(C11_IN_PIN, atoi(l + 3) ? 1 : 0);
+    else if (!strncmp(l, "BUSY ", 5)) { vout("BUSYAT %llu %llu", v_now, strtoull(l + 5, NULL, 0)); ets_delay_us((uint32_t)strtoull(l + 5, NULL, 0)); }
+    else if (!strncmp(l, "IN ", 3)) {
+      int lv = atoi(l + 3) ? 1 : 0;
+      if (lv != (int)((v_gpio_in >> C11_IN_PIN) & 1)) vout("EDGE %llu %d", v_now, lv);
+      v_set_input(C11_IN_PIN, lv);
+    }
     else if (!strncmp(l, "TRIG ", 5)) c11_trig((unsigned)strtoul(l + 5, NULL, 0));
     else if (!strncmp(l, "REG", 3)) { ds_conncb(); ds_regresult(SUPLA_RESULTCODE_TRUE, 120); supla_esp_devconn_iterate(NULL); vout("REGD %llu %d", v_now, vd_registered()); }
     else vout("UNKNOWN-EVENT");
